@@ -87,7 +87,9 @@ def run_case(c):
         n0 = len(SLEEPS)
         t0 = time.perf_counter()
         try:
-            if c.get("tick_kw"):
+            if c.get("tick_none") and now == 0:
+                lcd.tick()                      # now_ms=None -> 0
+            elif c.get("tick_kw"):
                 lcd.tick(now_ms=now)
             else:
                 lcd.tick(now)
